@@ -382,7 +382,13 @@ impl Engine for CliSim {
             // --- choose the command
             // per-property focus: C41 histories change refs and walk the operation
             // log more often, C40 histories get their second workspace early
-            let mut weights = [5usize, 3, 3, 2, 2, 2, 2, 3, 1, 1, 3, 2, 1, 1, 1, 1, 1, 1, 1, 1, 1, 1, 1, 1, 1, 1, 1, 1, 1, 1];
+            let mut weights = [5usize, 3, 3, 2, 2, 2, 2, 3, 1, 1, 3, 2, 1, 1, 1, 1, 1, 1, 1, 1, 1, 1, 1, 1, 1, 1, 1, 1, 1, 1, 0];
+            if prop == "C42" && tags_protect && !in_ws2 && have_ws2 {
+                weights[30] = 4;
+            }
+            if prop == "C42" && !have_ws2 {
+                weights[13] = if step < 4 { 8 } else { 2 };
+            }
             match prop {
                 "C41" => {
                     for k in [7, 10, 11, 12, 28, 29] {
@@ -471,6 +477,26 @@ impl Engine for CliSim {
                     // moves the immutable set itself (tags() is part of immutable_heads())
                     judged_immutable = false;
                     vec![s("tag"), s("set"), format!("v{}", ch.choose(2)), s("-r"), pick_rev(&mut ch), s("--allow-move")]
+                }
+                30 => {
+                    // A tag on a *hidden* commit: the working-copy commit gets a
+                    // child, the child is abandoned, and a tag is then set on the
+                    // abandoned commit by its id. The working-copy commit is now an
+                    // ancestor of an immutable head although it has no visible
+                    // descendant - later snapshots must not rewrite it.
+                    judged_immutable = false;
+                    jj(&[s("new"), s("-m"), format!("to be hidden {step}")], &cwd);
+                    let (_, out_id) = jj(&[s("log"), s("--no-graph"), s("-r"), s("@"), s("-T"), s("commit_id"), s("--ignore-working-copy")], &cwd);
+                    let hidden_id: String = out_id.chars().filter(char::is_ascii_hexdigit).take(40).collect();
+                    jj(&[s("edit"), s("@-")], &cwd);
+                    jj(&[s("abandon"), hidden_id.clone()], &cwd);
+                    // the tag is set from the *other* workspace: a command that makes
+                    // its own working-copy commit immutable moves @ to a new child
+                    // right away, but it leaves other workspaces where they are
+                    let (tag_ok, _) = jj(&[s("tag"), s("set"), format!("vh{}", ch.choose(2)), s("-r"), hidden_id.clone(), s("--allow-move")], &ws2);
+                    note!("setup: {ws_name}: new child {} of @, edit @-, abandon the child; from ws2: tag set on the hidden child -> {}", &hidden_id[..hidden_id.len().min(12)], if tag_ok { "ok" } else { "failed" });
+                    out.probe("c42_tag_on_hidden_descendant_of_wc", 1);
+                    vec![s("log"), s("-r"), s("@"), s("--no-graph"), s("--ignore-working-copy")]
                 }
                 29 => {
                     // revert the latest operation: judged like an undo of it
